@@ -69,6 +69,31 @@ Theorem C15_refuted_lb_step :
 Proof. exact pipeline_refuted_lb_step. Qed.
 Print Assumptions C15_refuted_lb_step.
 
+(* which loops the pass touches: exactly those with constant lb 0, step 1 whose body (behind the index
+   ops) consists of >= 2 groups of stage ops, each closed by a barrier, and nothing else before the
+   yield; every other loop is left unchanged (the identity is trivially equal to the sequential loop).
+   Before repo fix 3624df2 a body with further ops behind >= 2 stages was pipelined and the ops left
+   behind ran for the steady-state iterations only (notes/probe_c15_trailing_ops.mlir). *)
+Theorem C15_recognised_shape :
+  forall p lb st body, recognised p lb st body = true ->
+  lb = 0 /\ st = 1 /\ (2 <= nstages p)%nat /\ exists gs, length gs = nstages p /\ body = groups gs.
+Proof. exact recognised_shape. Qed.
+Print Assumptions C15_recognised_shape.
+
+Theorem C15_clean_recognised :
+  forall p, (2 <= nstages p)%nat -> recognised p 0 1 (clean_body p) = true.
+Proof. exact clean_recognised. Qed.
+Print Assumptions C15_clean_recognised.
+
+Example C15_stray_not_recognised :
+  scan false 0 [TStage; TSync; TStage; TSync; TOther; TStage; TSync] = None /\
+  scan false 0 [TStage; TSync; TStage; TOther; TSync] = None /\
+  scan false 0 [TStage; TSync; TSync; TStage; TSync] = None /\
+  scan false 0 [TStage; TSync; TStage; TSync; TStage] = None /\
+  scan false 0 [TStage; TStage; TSync; TStage; TSync] = Some 2%nat.
+Proof. exact stray_not_recognised. Qed.
+Print Assumptions C15_stray_not_recognised.
+
 (* non-vacuity: S = 4 stages, 9 iterations *)
 Example C15_nonvacuous :
   (1 <= 4)%nat /\ (4 - 1 <= 9)%nat /\ length (unrolled 4 9 1) = 12%nat /\
